@@ -856,7 +856,8 @@ func (r *TypeClassSummonContext) lookupTypeClassInstance(ctx CurrentContext, req
 						TypeArgs: nil,
 					}}, "Bytes")
 
-			if bytesInstance.target.IsRight() {
+			// a catch-all Given[T any] (e.g. clone.Given) is not a Bytes instance: fall through to Slice
+			if bytesInstance.target.IsRight() && !bytesInstance.isGivenAny() {
 				return bytesInstance
 			}
 			return r.namedLookup(ctx, req, "Slice")
